@@ -776,7 +776,14 @@ class C24(Profile):
     import objtypes
     for n in ev.get("ops", ()):
       sim.count("op." + n)
-    out = sim.do(ev)
+    try:
+      out = sim.do(ev)
+    except AssertionError as e:
+      if "fetch_table(" in str(e) and "failed" in str(e):
+        # the snapshot after the event could not be fetched: a fetch_table reply that cannot be
+        # delivered is what the property excludes
+        raise vio(sim, "fetch-failed", str(e)[:400])
+      raise
     if ev["k"] == "open":
       return out
     if out.ok is False:
